@@ -142,13 +142,15 @@ typedef struct Pic {
 } Pic;
 
 static int g_w, g_h, g_bits, g_kind, g_stride_extra, g_pad_mode; /* pad_mode: -1 random, else byte */
+static int g_stride_cb = -1, g_stride_cr = -1;                      /* extra samples per chroma row; -1: half of the luma extra (both planes equal) */
+#define STRIDE_EXTRA(pl) ((pl) == 0 ? g_stride_extra : (pl) == 1 ? (g_stride_cb >= 0 ? g_stride_cb : g_stride_extra / 2) : (g_stride_cr >= 0 ? g_stride_cr : g_stride_extra / 2))
 static uint32_t g_cseed;
 
 static void pic_alloc(Pic *p) {
     int bps = g_bits > 8 ? 2 : 1;
     for (int pl = 0; pl < 3; pl++) {
         int pw = pl ? (g_w + 1) / 2 : g_w, ph = pl ? (g_h + 1) / 2 : g_h;
-        int stride = pw + (pl ? g_stride_extra / 2 : g_stride_extra);
+        int stride = pw + STRIDE_EXTRA(pl);
         p->sz[pl]  = (size_t)stride * (size_t)ph * (size_t)bps;
         p->mem[pl] = (uint8_t *)malloc(p->sz[pl] + 64);
     }
@@ -164,7 +166,7 @@ static void pic_fill(Pic *p, int k) {
     uint32_t pr  = g_cseed * 7919u + (uint32_t)k * 104729u + 17u;
     for (int pl = 0; pl < 3; pl++) {
         int pw = pl ? (g_w + 1) / 2 : g_w, ph = pl ? (g_h + 1) / 2 : g_h;
-        int stride = pw + (pl ? g_stride_extra / 2 : g_stride_extra);
+        int stride = pw + STRIDE_EXTRA(pl);
         for (int y = 0; y < ph; y++) {
             uint8_t *row = p->mem[pl] + (size_t)y * (size_t)stride * (size_t)bps;
             for (int x = 0; x < stride; x++) {
@@ -189,7 +191,8 @@ static void pic_fill(Pic *p, int k) {
     p->io.cb        = p->mem[1];
     p->io.cr        = p->mem[2];
     p->io.y_stride  = (uint32_t)(g_w + g_stride_extra);
-    p->io.cb_stride = p->io.cr_stride = (uint32_t)((g_w + 1) / 2 + g_stride_extra / 2);
+    p->io.cb_stride = (uint32_t)((g_w + 1) / 2 + STRIDE_EXTRA(1));
+    p->io.cr_stride = (uint32_t)((g_w + 1) / 2 + STRIDE_EXTRA(2));
     p->io.width     = (uint32_t)g_w;
     p->io.height    = (uint32_t)g_h;
     p->io.color_fmt = EB_YUV420;
@@ -311,7 +314,12 @@ int main(int argc, char **argv) {
         else if (!strcmp(a, "--cseed")) g_cseed = (uint32_t)strtoul(NEXT, 0, 0);
         else if (!strcmp(a, "--set")) sets[nsets++] = NEXT;
         else if (!strcmp(a, "--policy")) policy = NEXT;
-        else if (!strcmp(a, "--stride-extra")) g_stride_extra = atoi(NEXT) & ~1;
+        else if (!strcmp(a, "--stride-extra")) { /* E  or  Y:CB:CR (independent strides for the three planes) */
+            const char *v = NEXT;
+            int         y = 0, cb = -1, cr = -1;
+            if (sscanf(v, "%d:%d:%d", &y, &cb, &cr) == 3) g_stride_extra = y, g_stride_cb = cb, g_stride_cr = cr;
+            else g_stride_extra = atoi(v) & ~1;
+        }
         else if (!strcmp(a, "--pad")) { const char *v = NEXT; g_pad_mode = !strcmp(v, "rand") ? -1 : (int)strtol(v, 0, 0); }
         else if (!strcmp(a, "--scribble")) scribble = atoi(NEXT);
         else if (!strcmp(a, "--prefill")) prefill = NEXT;
